@@ -7,6 +7,7 @@ import Model.Parse
 import Model.Binary
 import Model.Canon
 import Model.Rabin
+import Spec.Normalize
 
 open Lean Wire
 
@@ -62,6 +63,13 @@ def handle (j : Json) : String :=
       match Binary.readData FUEL env (ropts j) s (unhex (getS j "bytes")) with
       | .error e => errOut e
       | .ok (v, rest) => "{\"ok\":" ++ ofVal v ++ ",\"rest\":" ++ toString rest.length ++ "}"
+  | "normalize" =>
+    match parseReq j with
+    | .error e => "{\"perr\":\"" ++ e.name ++ "\"}"
+    | .ok (s, env) =>
+      match Spec.normalize FUEL env (wopts j) s (getV j "value") with
+      | none => "{\"none\":true}"
+      | some v => "{\"ok\":" ++ ofVal v ++ "}"
   | "skip" =>
     match parseReq j with
     | .error e => "{\"perr\":\"" ++ e.name ++ "\"}"
